@@ -93,6 +93,19 @@ def rule_crash_discipline(ctx: Ctx) -> None:
     dec = [s for s in walk_stmts(ld.node.body) if isinstance(s, ast.Assign) and isinstance(s.targets[0], ast.Attribute) and s.targets[0].attr == "_down_windows"]
     ok = len(dec) == 1 and "- 1" in unparse(dec[0].value)
     ctx.ob("C06-3", "G6", ld, dec[0] if dec else None, ok, "leaving a window decrements the window count by one")
+    # every path through the enter/leave helpers updates the count exactly once and then the flag (no early exit that skips the count)
+    for q, delta in (("_enter_down", "+ 1"), ("_leave_down", "- 1")):
+        fn = prog.func(NODE, q)
+        ff = ctx.flow(fn)
+        bad = []
+        for pth in enumerate_paths(ff, ff.cfg.entry):
+            if pth.end != "exit":
+                continue
+            cnt = [n.ast for n in pth.nodes if n.kind == "stmt" and isinstance(n.ast, ast.Assign) and isinstance(n.ast.targets[0], ast.Attribute) and n.ast.targets[0].attr == "_down_windows"]
+            flg = [n.ast for n in pth.nodes if n.kind == "stmt" and isinstance(n.ast, ast.Assign) and isinstance(n.ast.targets[0], ast.Attribute) and n.ast.targets[0].attr == "_crashed"]
+            if len(cnt) != 1 or delta not in unparse(cnt[0].value) or len(flg) != 1:
+                bad.append(f"path [{pth.describe()}] updates the window count {len(cnt)}x and the flag {len(flg)}x")
+        ctx.ob("C06-3", "G2", fn, "every path counts the window", not bad, f"{q}: each call moves the window count by exactly one and recomputes the flag — no path skips the count" + ("" if not bad else " — " + bad[0]))
     ctx.floor("C06-1", 4)
 
 
@@ -382,12 +395,12 @@ def rule_alias(ctx: Ctx) -> None:
 
 
 def run(ctx: Ctx) -> None:
-    rule_crash_discipline(ctx)
-    rule_closure_composability(ctx)
-    rule_helpers(ctx)
-    rule_symmetry(ctx)
-    rule_cancel(ctx)
-    rule_alias(ctx)
+    ctx.guarded(rule_crash_discipline)
+    ctx.guarded(rule_closure_composability)
+    ctx.guarded(rule_helpers)
+    ctx.guarded(rule_symmetry)
+    ctx.guarded(rule_cancel)
+    ctx.guarded(rule_alias)
 
 
 MUTANTS = [
@@ -415,6 +428,10 @@ MUTANTS = [
     ("handle-records-nothing", SCHED, "            handle._events = fault_events\n", "", "C06-5"),
     ("cancel-skips-events", FAULT, "        for event in self._events:\n            event.cancel()\n", "", "C06-5"),
     ("fault-event-not-daemon", RESF, "                event_type=f\"fault.capacity.restore:{resource_name}\",\n                fn=deactivate,\n                daemon=True,", "                event_type=f\"fault.capacity.restore:{resource_name}\",\n                fn=deactivate,", "C06-5"),
+]
+MUTANTS += [
+    ("enter-down-skips-count-when-already-down", NODE, "def _enter_down(entity: object) -> None:\n    \"\"\"One more crash/pause window covers the entity: it is down.\"\"\"\n",
+     "def _enter_down(entity: object) -> None:\n    \"\"\"One more crash/pause window covers the entity: it is down.\"\"\"\n    if getattr(entity, \"_crashed\", False):\n        return\n", "C06-3"),
 ]
 REFACTORS = [
     ("crash-check-direct-attr", EV, "        if getattr(self.target, \"_crashed\", False):\n            return []\n\n        tracing_on = _event_tracing_enabled",
